@@ -1,14 +1,157 @@
 (* Props/C17.v — property C17 (AAT morx subtables run as the extended state-machine model prescribes).
-   Only statements, each closed by `exact`, with Print Assumptions beneath. *)
+   Only statements, each closed by `exact`, with Print Assumptions beneath; Examples at the end show
+   that the hypotheses are satisfiable and that the model computes the hand-derived results of
+   harness/src/fontgen/selftest.rs. *)
 From Coq Require Import List NArith ZArith Bool Arith Permutation.
 From RB Require Import Base.Result Model.Buffer Model.Font Model.Morx Model.MorxPipe Proofs.MorxP.
 Import ListNotations.
-Local Open Scope N_scope.
 
-(* non-contextual subtables map every glyph through the lookup table (glyphs the table does not
-   cover stay), for every buffer; clusters are untouched *)
+(* ------------------------------------------------------------------ 1. rearrangement *)
+
+(* The nibble-MAP implementation (MAP table, l/r/reverse nibbles, the two save loops, the forward or
+   backward copy loop over the middle, the two write-back loops, the two swaps — Model/Morx.v
+   rearrange_range, loops literal in range-relative indices) equals Apple's verb table for all 16
+   verbs and EVERY marked range within HB_MAX_CONTEXT_LENGTH = 64: x is an arbitrary middle. *)
+Theorem C17_rearrange : forall (a b c d : info) (x : list info),
+  (len_ok x -> rearrange_verb 0 x = x) /\                                                       (* no change *)
+  (len_ok (a :: x) -> rearrange_verb 1 (a :: x) = x ++ [a]) /\                                  (* Ax => xA *)
+  (len_ok (x ++ [d]) -> rearrange_verb 2 (x ++ [d]) = d :: x) /\                                (* xD => Dx *)
+  (len_ok (a :: x ++ [d]) -> rearrange_verb 3 (a :: x ++ [d]) = d :: x ++ [a]) /\               (* AxD => DxA *)
+  (len_ok (a :: b :: x) -> rearrange_verb 4 (a :: b :: x) = x ++ [a; b]) /\                     (* ABx => xAB *)
+  (len_ok (a :: b :: x) -> rearrange_verb 5 (a :: b :: x) = x ++ [b; a]) /\                     (* ABx => xBA *)
+  (len_ok (x ++ [c; d]) -> rearrange_verb 6 (x ++ [c; d]) = c :: d :: x) /\                     (* xCD => CDx *)
+  (len_ok (x ++ [c; d]) -> rearrange_verb 7 (x ++ [c; d]) = d :: c :: x) /\                     (* xCD => DCx *)
+  (len_ok (a :: x ++ [c; d]) -> rearrange_verb 8 (a :: x ++ [c; d]) = c :: d :: x ++ [a]) /\    (* AxCD => CDxA *)
+  (len_ok (a :: x ++ [c; d]) -> rearrange_verb 9 (a :: x ++ [c; d]) = d :: c :: x ++ [a]) /\    (* AxCD => DCxA *)
+  (len_ok (a :: b :: x ++ [d]) -> rearrange_verb 10 (a :: b :: x ++ [d]) = d :: x ++ [a; b]) /\ (* ABxD => DxAB *)
+  (len_ok (a :: b :: x ++ [d]) -> rearrange_verb 11 (a :: b :: x ++ [d]) = d :: x ++ [b; a]) /\ (* ABxD => DxBA *)
+  (len_ok (a :: b :: x ++ [c; d]) -> rearrange_verb 12 (a :: b :: x ++ [c; d]) = c :: d :: x ++ [a; b]) /\  (* ABxCD => CDxAB *)
+  (len_ok (a :: b :: x ++ [c; d]) -> rearrange_verb 13 (a :: b :: x ++ [c; d]) = c :: d :: x ++ [b; a]) /\  (* ABxCD => CDxBA *)
+  (len_ok (a :: b :: x ++ [c; d]) -> rearrange_verb 14 (a :: b :: x ++ [c; d]) = d :: c :: x ++ [a; b]) /\  (* ABxCD => DCxAB *)
+  (len_ok (a :: b :: x ++ [c; d]) -> rearrange_verb 15 (a :: b :: x ++ [c; d]) = d :: c :: x ++ [b; a]).    (* ABxCD => DCxBA *)
+Proof. exact verb_table. Qed.
+Print Assumptions C17_rearrange.
+
+(* the same for an arbitrary MAP byte m: l = |A| and r = |D| glyphs change sides, reversed when the
+   nibble is 3 *)
+Theorem C17_rearrange_general : forall m A x D,
+  length A = map_l m -> length D = map_r m -> length (A ++ x ++ D) <= MAX_CONTEXT_LENGTH ->
+  rearrange_range m (A ++ x ++ D) = swapif (map_rev_r m) D ++ x ++ swapif (map_rev_l m) A.
+Proof. exact rearrange_range_spec. Qed.
+Print Assumptions C17_rearrange_general.
+
+(* ranges shorter than l + r or longer than 64 glyphs are left alone, as the code's guard says *)
+Theorem C17_rearrange_guard : forall m rng,
+  (length rng < map_l m + map_r m)%nat \/ (MAX_CONTEXT_LENGTH < length rng)%nat -> rearrange_range m rng = rng.
+Proof. exact rearrange_range_skip. Qed.
+Print Assumptions C17_rearrange_guard.
+
+(* whatever the MAP byte and the range: a permutation of the range *)
+Theorem C17_rearrange_permutation : forall m rng, Permutation (rearrange_range m rng) rng.
+Proof. exact rearrange_range_perm. Qed.
+Print Assumptions C17_rearrange_permutation.
+
+(* the transition on an in-place buffer (idx = |pre|): the two merge_clusters calls and the verb keep
+   the buffer in place, keep its length, cursor, cluster level and success flag, and spend no budget *)
+Theorem C17_rearrange_transition_shape : forall c e b ops c' b' ops' a, inplace b ->
+  rearr_transition c e b ops = Ok (c', b', ops', a) -> keeps_inplace b b' /\ ops' = ops.
+Proof. exact rearr_transition_inplace. Qed.
+Print Assumptions C17_rearrange_transition_shape.
+
+(* ------------------------------------------------------------------ 2. non-contextual *)
+
+(* every glyph is mapped through the lookup table (glyphs the table does not cover stay), for every
+   buffer; clusters are untouched *)
 Theorem C17_noncontextual : forall l ng b,
   map gid (arr (apply_noncontextual l ng b)) = map (nonctx_gid l ng) (map gid (arr b))
   /\ map cluster (arr (apply_noncontextual l ng b)) = map cluster (arr b).
 Proof. exact (fun l ng b => conj (noncontextual_gids l ng b) (noncontextual_clusters l ng b)). Qed.
 Print Assumptions C17_noncontextual.
+
+(* ------------------------------------------------------------------ 3. the drive loop is total *)
+
+(* Generic: for ANY machine whose transition (when it leaves the buffer successful) keeps an invariant
+   and does not raise  |remaining input| + max(max_ops, 0),  and whose next_glyph consumes input,
+   fuel = that potential + 1 is never exhausted: every iteration either advances or pays one unit of
+   the DONT_ADVANCE budget.  All state tables, states, contexts. *)
+Theorem C17_drive_total_generic : forall (E C : Type) (M : machine E C) (st : state_table E) (ng : N) (Inv : zbuf -> Prop),
+  (forall c e b ops c' b' ops' a, Inv b -> m_transition M c e b ops = Ok (c', b', ops', a) -> ok b' = true ->
+     Inv b' /\ (pot b' ops' <= pot b ops)%nat) ->
+  (forall b b2, Inv b -> rest b <> [] -> next_glyph b = Ok b2 -> ok b2 = true -> Inv b2 /\ (length (rest b2) < length (rest b))%nat) ->
+  forall fuel state c b ops amb, Inv b -> (pot b ops < fuel)%nat -> drive_loop M st ng fuel state c b ops amb <> None.
+Proof. exact (@drive_loop_total). Qed.
+Print Assumptions C17_drive_total_generic.
+
+(* instances: rearrangement and contextual subtables, with the fuel `drive` uses *)
+Theorem C17_drive_total_rearrangement : forall st ng b ops state c amb, out_mode b = false ->
+  drive_loop rearr_machine st ng (drive_fuel (drive_start true b) ops) state c (drive_start true b) ops amb <> None.
+Proof. exact rearr_drive_total. Qed.
+Print Assumptions C17_drive_total_rearrangement.
+
+Theorem C17_drive_total_contextual : forall subs st ng b ops state c amb, out_mode b = false ->
+  drive_loop (ctx_machine subs ng) st ng (drive_fuel (drive_start true b) ops) state c (drive_start true b) ops amb <> None.
+Proof. exact ctx_drive_total. Qed.
+Print Assumptions C17_drive_total_contextual.
+
+(* C17_drive_total for ligature and insertion subtables is PARTIAL: the generic theorem above applies
+   once  pot (transition b) <= pot b  is shown for lig_transition / ins_transition (move_to restores
+   out_len; insertion pays `count` of max_ops for `count` glyphs).  Full statement:
+     forall actions comps ligs st ng b ops, drive_loop (lig_machine actions comps ligs) st ng
+        (drive_fuel (drive_start false b) ops) 0 lig_ctx0 (drive_start false b) ops 0 <> None
+   and the same for ins_machine.  The correspondence run observes OutOfFuel as a model Error (none seen). *)
+
+(* ------------------------------------------------------------------ 4. contextual transition *)
+
+Theorem C17_contextual_transition_shape : forall subs ng c e b ops c' b' ops' a, inplace b ->
+  ctx_transition subs ng c e b ops = Ok (c', b', ops', a) -> keeps_inplace b b' /\ ops' = ops.
+Proof. exact ctx_transition_inplace. Qed.
+Print Assumptions C17_contextual_transition_shape.
+
+(* ------------------------------------------------------------------ 5. paired reversals *)
+
+(* run_subtable applies the SAME reversal decision before and after the subtable ... *)
+Theorem C17_reverse_paired : forall ng d s p p', run_subtable ng d s p = Ok p' ->
+  exists b0 b1 ops amb,
+    maybe_reverse (sub_reverse d s) (p_buf p) = Ok b0 /\
+    apply_subtable (ms_kind s) ng b0 (p_ops p) = Ok (b1, ops, amb) /\
+    maybe_reverse (sub_reverse d s) b1 = Ok (p_buf p').
+Proof. exact run_subtable_paired. Qed.
+Print Assumptions C17_reverse_paired.
+
+(* ... and the two reversals cancel on an in-place buffer, for every decision r (hence for every
+   combination of the logical / backwards coverage bits and the buffer direction): the order is as found *)
+Theorem C17_reverse_restored : forall r b b0 b1, inplace_inv b ->
+  maybe_reverse r b = Ok b0 -> maybe_reverse r b0 = Ok b1 -> arr b1 = arr b /\ dead b1 = dead b.
+Proof. exact maybe_reverse_twice. Qed.
+Print Assumptions C17_reverse_restored.
+
+(* the decision itself: logical order => the backwards bit; layout order => backwards bit XOR backward direction *)
+Theorem C17_reverse_decision : forall d s,
+  sub_reverse d s = (if cov_logical s then cov_backwards s else negb (Bool.eqb (cov_backwards s) (dir_backward d))).
+Proof. exact sub_reverse_spec. Qed.
+Print Assumptions C17_reverse_decision.
+
+(* ------------------------------------------------------------------ 6. feature-flag and direction gating *)
+
+Local Open Scope N_scope.
+
+(* without a `feat` table the compiled chain flags are the chain's default flags *)
+Theorem C17_chain_flags : forall c, chain_flags no_feature c = mc_default_flags c.
+Proof. exact chain_flags_default. Qed.
+Print Assumptions C17_chain_flags.
+
+(* a subtable (that the parser accepts) runs iff its feature flags meet the chain flags and its
+   coverage admits the buffer direction; otherwise it is skipped and the buffer passes unchanged *)
+Theorem C17_flags_gating : forall ng d flags s t p, kind_parses (ms_kind s) = true ->
+  run_subtables ng d flags (s :: t) p =
+  (if sub_runs flags d s then (do p1 <- run_subtable ng d s p; run_subtables ng d flags t p1)
+   else run_subtables ng d flags t p).
+Proof. exact run_subtables_step. Qed.
+Print Assumptions C17_flags_gating.
+
+Theorem C17_flags_gating_test : forall flags d s,
+  sub_runs flags d s = true <->
+  N.land (ms_sub_feature_flags s) flags <> 0 /\
+  (N.land (ms_coverage s) 0x20000000 <> 0 \/ (dir_vertical d = true <-> N.land (ms_coverage s) 0x80000000 <> 0)).
+Proof. exact sub_runs_spec. Qed.
+Print Assumptions C17_flags_gating_test.
